@@ -31,6 +31,7 @@ type Program struct {
 	SolverArg     []string
 	TimeoutMS     int
 	Logic         string
+	Goroutines    bool   // queue `go` statements and run them at blocking points (sequential model)
 	SQLSchema     string // file with the CREATE statements of the real database (sqlsym)
 	FastTimeoutMS int // timeout of the incremental solver before the stand-alone retry
 	Trace         bool
@@ -98,6 +99,8 @@ type Worker struct {
 
 	globals  map[*ssa.Global]*Obj
 	globUndo  []globUndo
+	pending   []pendingGo
+	inGo      bool
 	globSaved map[*Obj]bool
 	restoring bool
 	initDone map[*ssa.Package]bool
@@ -464,6 +467,8 @@ func (w *Worker) RunPath(entry *ssa.Function, prefix []Decision) (res *PathResul
 	}
 	w.restoring = false
 	w.globUndo = w.globUndo[:0]
+	w.pending = nil
+	w.inGo = false
 	w.globSaved = map[*Obj]bool{}
 	w.prefix = prefix
 	w.decisions = w.decisions[:0]
@@ -522,6 +527,7 @@ func (w *Worker) RunPath(entry *ssa.Function, prefix []Decision) (res *PathResul
 		}
 	}()
 	w.call(nil, entry, nil, nil)
+	w.runPending()
 	res.Kind = "ok"
 	return res
 }
